@@ -8,8 +8,9 @@ import (
 
 const scheduled = true
 
-func rtGo(f func()) { vsync.Go(f) }
-func rtYield()      { vsync.Yield() }
+func rtGo(f func())     { vsync.Go(f) }
+func rtYield()          { vsync.Yield() }
+func rtSetFine(on bool) { vsync.SetFine(on) }
 
 // harness threads: spawn without a scheduling point, join without counters
 func rtSpawn(f func()) { vsync.GoQuiet(f) }
